@@ -91,13 +91,12 @@ func main() {
 			root = os.Args[2]
 		}
 		fmt.Print(dumpFacts(root))
-	case "cols":
+	case "cols": // gfh cols <package> [root]
 		root := "/repo"
-		if len(os.Args) > 2 {
-			root = os.Args[2]
+		if len(os.Args) > 3 {
+			root = os.Args[3]
 		}
-		fmt.Print(dumpCols(root))
-		fmt.Print(dumpIntFuncs(root))
+		fmt.Print(dumpCols(root, os.Args[2]))
 	case "run":
 		fs := flag.NewFlagSet("run", flag.ExitOnError)
 		commonFlags(fs)
